@@ -34,7 +34,7 @@ CONSTANTS NSeg,          \* segments of the (finite, ENDLIST) stream
           Fmp4,          \* TRUE: init segment + tracks known before the first segment
           Variant,       \* "ok" | "startNoSelect" (C12: start hand-off without ctx alternative)
                          \*      | "errorNoJoin" (pool cancelled but not joined on the error path)
-                         \*      | "paceNoCtx" (pacing sleep ignores cancellation)
+                         \*      | "pushNoCtx" (hand-off of a sample to the track processor ignores cancellation)
           MaxReq         \* requests are numbered 0..MaxReq-1 (bounds close/fault positions)
 
 G == {"prim", "dl", "sp", "tp"}
@@ -258,7 +258,7 @@ TpSignal ==
 Blocking(g) ==
   CASE g = "prim" -> pc[g] \in ({"waitTracks", "waitEnded"} \cup (IF Variant = "startNoSelect" THEN {} ELSE {"sendStart"}))
     [] g = "dl"   -> pc[g] \in {"throttle", "waitCtx"}
-    [] g = "sp"   -> pc[g] \in {"sendTracks", "waitStart", "pull", "pushT", "waitCtx"}
+    [] g = "sp"   -> pc[g] \in ({"sendTracks", "waitStart", "pull", "waitCtx"} \cup (IF Variant = "pushNoCtx" THEN {} ELSE {"pushT"}))
     [] g = "tp"   -> pc[g] \in ({"recv"} \cup (IF Variant = "paceNoCtx" THEN {} ELSE {"pace"}))
 
 Cancelled(g) ==
